@@ -74,8 +74,8 @@ def gen_cases(tier: str, seed: int):
             d['handlers'].append({'kind': 'daemon', 'id': 'dm', 'persona': rng.choice([{'type': 'selfexit', 'after': rng.choice([0.5, 2.0, 5.0])}, {'type': 'obedient'}]),
                                   'opts': rng.choice([{}, {'labels': {'l': 'v0'}}])})
             d.setdefault('settings', {})['background__cancellation_polling'] = 2.0
-            # kopf re-runs optional/finished deletion handlers at API speed while daemons are stopping (DESIGN O1): with requests of 1 us
-            # that is a million cycles per virtual second; 5 ms per request keeps such runs finite
+            # before fix dcf2609 kopf re-ran finished deletion handlers at API speed while daemons were stopping (DESIGN O1): with requests
+            # of 1 us that is a million cycles per virtual second; 5 ms per request keeps such runs (e.g. of a tree that reverts it) finite
             d['latency'] = 0.005
         cases.append({'name': f'rnd{i}', 'desc': d})
     return cases
